@@ -553,9 +553,36 @@ func runGroup(sel []*HarnessDef, tier, propID string, doReplay bool, cb groupCB)
 					unconfirmed = append(unconfirmed, v)
 				}
 			}
+			// translator validation: replay reachability witnesses natively (same marker, no failure)
+			nw := 0
+			if doReplay && os.Getenv("VERIF_NO_WITNESS") == "" {
+				maxW := 1
+				if tier == "thorough" {
+					maxW = 3
+				}
+				for _, k := range ev.Reached {
+					if nw >= maxW {
+						break
+					}
+					smp := r.Reached[k]
+					if smp == nil || len(smp.Vector) == 0 {
+						continue
+					}
+					ok, out := replayWitness(h, smp.Vector, k, tier, tags)
+					nw++
+					if ok {
+						r.WitnessOK++
+					} else {
+						r.WitnessBad = append(r.WitnessBad, fmt.Sprintf("%s marker %q: %s%s", h.Func, k, out, fmtVec(smp.Vector)))
+					}
+				}
+			}
 			switch {
 			case len(confirmed) > 0:
 				ev.Status = "violated"
+			case len(r.WitnessBad) > 0:
+				ev.Status = "inconclusive"
+				ev.Notes = append(ev.Notes, "a reachability witness did not behave the same natively (encoder disagreement): "+strings.Join(r.WitnessBad, "; "))
 			case len(unconfirmed) > 0:
 				ev.Status = "inconclusive"
 				ev.Notes = append(ev.Notes, "solver counterexample did not reproduce natively (encoder disagreement)")
@@ -636,6 +663,8 @@ func cmdCheck(args []string) int {
 		for _, v := range unconfirmed {
 			cov.EncoderDisagree = append(cov.EncoderDisagree, fmt.Sprintf("%s %q %s", h.Func, v.Label, fmtVec(v.Vector)))
 		}
+		cov.TracesValidated += r.WitnessOK
+		cov.EncoderDisagree = append(cov.EncoderDisagree, r.WitnessBad...)
 		for _, v := range confirmed {
 			cov.TracesValidated++
 			kf := matchKnown(known, prop, h.Func, v.Label)
